@@ -289,6 +289,7 @@ Job* makeJob(JobDescriptor info) {
     auto job = new mustache::NonTemplateJob{};
     job->callback = convert(info.callback, convert(job));
     job->job_name = info.name;
+    job->require_entity = info.entity_required;
     job->component_requests.resize(info.component_info_arr_size);
     job->job_begin = convert(info.on_job_begin, convert(job));
     job->job_end = convert(info.on_job_end, convert(job));
